@@ -290,8 +290,31 @@ func IMul(a, b *Term) *Term {
 	if b.IsConst() && b.Val.Cmp(big.NewInt(1)) == 0 {
 		return a
 	}
+	if NLMulUF && !a.IsConst() && !b.IsConst() {
+		// products of two symbolic terms as an uninterpreted function (option nlmul=uf): the proof then
+		// rests on explicitly instantiated arithmetic lemmas only
+		// canonical argument order by operator first, so that equal-but-differently-named operands
+		// (pow2u(r) vs pow2u(n) with r == n) end up in the same argument position
+		ka, kb := a.Op+"|"+a.String(), b.Op+"|"+b.String()
+		if ka > kb {
+			a, b = b, a
+		}
+		t := App("umul", IntSort, a, b)
+		if !nlSeen[t.String()] {
+			nlSeen[t.String()] = true
+			NLMulComm = append(NLMulComm, Eq(t, App("umul", IntSort, b, a)))
+		}
+		return t
+	}
 	return App("*", IntSort, a, b)
 }
+
+// NLMulUF is set while generating the obligations of a contract with `option nlmul=uf` (VC generation is sequential).
+var NLMulUF bool
+
+// NLMulComm collects commutativity instances umul(a,b) == umul(b,a) for every product created.
+var NLMulComm []*Term
+var nlSeen = map[string]bool{}
 
 // SMT-LIB div/mod (Euclidean; for positive divisor = floor)
 func IDivE(a, b *Term) *Term {
